@@ -25,9 +25,9 @@ Definition ctx_run_okb (g : geom) (ops : list op) : bool :=
           (delivered (snd res)).
 
 (* 4:2:0, scale 8/8, 53 rows: chroma is the tracked component *)
-Definition g420 : geom := mkGeom 8 2 53 4 false true 1 27 32 true 2 53.
+Definition g420 : geom := mkGeom 8 2 53 4 false true 1 27 32 true 2 53 false false false false.
 (* 4:2:0, scale 12/8, 80 rows *)
-Definition g420x12 : geom := mkGeom 12 2 80 4 false true 1 40 48 true 2 80.
+Definition g420x12 : geom := mkGeom 12 2 80 4 false true 1 40 48 true 2 80 false false false false.
 
 Lemma ctx_examples :
   ctx_run_okb g420 [Read 53] = true /\
@@ -39,7 +39,7 @@ Lemma ctx_examples :
 Proof. vm_compute. repeat split; reflexivity. Qed.
 
 (* max_v_samp_factor = 4 with context rows (Y 1x4, Cb/Cr 1x2, h1v2 fancy upsampling of chroma), 200 rows *)
-Definition g141212 : geom := mkGeom 8 4 200 7 false true 2 100 104 true 4 200.
+Definition g141212 : geom := mkGeom 8 4 200 7 false true 2 100 104 true 4 200 false false false false.
 
 Lemma g141212_ok : ctx_geom_ok g141212.
 Proof. unfold ctx_geom_ok, g141212, gL. cbn. repeat split; try reflexivity; try discriminate. Qed.
